@@ -78,7 +78,10 @@ def gen_difficulty(rng, hostile):
 def gen_events(rng, hostile, tmax, tshift=0):
     L = ["[Events]", "//Background and Video events"]
     if rng.random() < 0.7:
-        L.append(rng.choice(['0,0,"bg.jpg",0,0', '0,0,"BG with space.png"', 'Video,0,"v.mp4"', '1,0,pic.png', '4,0,0,"sb.png"']))
+        L.append(rng.choice(['0,0,"bg.jpg",0,0', '0,0,"BG with space.png"', 'Video,0,"v.mp4"', '1,0,pic.png', '4,0,0,"sb.png"',
+                             'Sprite,Background,Centre,"SB\\bg.png",320,240', 'Sprite,Foreground,TopLeft,fg.png,0,0']))
+        if rng.random() < 0.3:
+            L.append(rng.choice([' F,0,0,1000,0,1', '_M,0,0,1000,320,240,100,100', 'Sample,100,0,"s.wav",80', 'Animation,Fail,Centre,"anim.png",320,240,4,100']))
     for _ in range(rng.randint(0, 3)):
         if rng.random() < hostile:
             L.append(rng.choice(EVENT_LINES))
